@@ -531,7 +531,15 @@ func (h *htlcTimeoutResolver) resolveSecondLevelTxLegacy() error {
 	h.log.Debug("incubating htlc output")
 
 	// The utxo nursery will take care of broadcasting the second-level
-	// timeout tx and sweeping its output once it confirms.
+	// timeout tx and sweeping its output once it confirms. If we've
+	// already checkpointed the confirmation of the timeout tx, the nursery
+	// has persisted the output and moves it on by itself, also after a
+	// restart. Handing it over again would make the nursery start over
+	// with an output it may have swept already.
+	if h.outputIncubating {
+		return h.resolveTimeoutTx()
+	}
+
 	err := h.IncubateOutputs(
 		h.ChanPoint, fn.Some(h.htlcResolution),
 		fn.None[lnwallet.IncomingHtlcResolution](),
